@@ -162,7 +162,7 @@ Proof. vm_compute. reflexivity. Qed.
 Example C17_value_constructors_are_fresh :
   forallb (fun nm => match find_idx nm names_C17 0 with Some k => memb k fresh_C17 | None => false end)
     ["spatialmath.base.transforms3d:rotx"; "spatialmath.base.transforms3d:roty"; "spatialmath.base.transforms3d:rotz";
-     "spatialmath.base.transforms2d:rot2"; "spatialmath.base.transforms3d:trotx"; "spatialmath.base.transforms3d:troty";
+     "spatialmath.base.transforms2d:trnorm2"; "spatialmath.base.transforms3d:trnorm"; "spatialmath.base.transforms2d:rot2"; "spatialmath.base.transforms3d:trotx"; "spatialmath.base.transforms3d:troty";
      "spatialmath.base.transforms3d:trotz"; "spatialmath.base.transforms2d:trot2"; "spatialmath.base.transformsNd:rodrigues";
      "spatialmath.base.transforms3d:trexp"; "spatialmath.base.transforms2d:trexp2"; "spatialmath.base.transforms3d:angvec2r";
      "spatialmath.base.transforms3d:angvec2tr"; "spatialmath.base.quaternions:q2r"; "spatialmath.base.quaternions:r2q";
